@@ -253,6 +253,16 @@ func Build(w *World, modes map[string]string) *graphql.Schema {
 		}
 		return l, w.fail(x.name + ".bs")
 	})
+	// the same objects handed over BY VALUE: batch functions that take map[batch.Index]*B then work on copies
+	a.FieldFunc("vbs", func(ctx context.Context, x *A) ([]B, error) {
+		l := []B{}
+		for _, n := range w.List[x.name+".bs"] {
+			if b := w.objB(n); b != nil {
+				l = append(l, *b)
+			}
+		}
+		return l, nil
+	})
 	reg(a, "u", mode("A.u"), func(x *A) (*U, error) { return w.objU(w.Link[x.name+".u"]), w.fail(x.name + ".u") })
 	reg(a, "sq", mode("A.sq"), func(x *A) (*int64, error) { v := x.X * x.X; return &v, w.fail(x.name + ".sq") })
 
@@ -331,7 +341,7 @@ func (w *World) Describe() Desc {
 	}}
 	d.Types["A"] = TypeDesc{Kind: "OBJECT", Key: "id", Members: []string{}, Fields: map[string]TRef{
 		"id": nn(named("Int")), "x": nn(named("Int")), "name": nn(named("String")),
-		"b": named("B"), "bs": list(named("B")), "u": named("U"), "sq": named("Int"),
+		"b": named("B"), "bs": list(named("B")), "vbs": list(named("B")), "u": named("U"), "sq": named("Int"),
 	}}
 	d.Types["B"] = TypeDesc{Kind: "OBJECT", Key: "id", Members: []string{}, Fields: map[string]TRef{
 		"id": nn(named("Int")), "y": nn(named("Int")), "tag": nn(named("String")),
@@ -344,7 +354,7 @@ func (w *World) Describe() Desc {
 	for n, a := range w.As {
 		d.Objs[n] = ObjDesc{Type: "A", M: map[string]tj.T{
 			"id": tj.From(a.Id), "x": tj.From(a.X), "name": tj.From(a.Name),
-			"b": ref(w.Link[n+".b"]), "bs": refs(w.List[n+".bs"]), "u": ref(w.Link[n+".u"]), "sq": tj.From(a.X * a.X),
+			"b": ref(w.Link[n+".b"]), "bs": refs(w.List[n+".bs"]), "vbs": refs(nonEmpty(w.List[n+".bs"])), "u": ref(w.Link[n+".u"]), "sq": tj.From(a.X * a.X),
 		}}
 	}
 	for n, b := range w.Bs {
@@ -354,6 +364,16 @@ func (w *World) Describe() Desc {
 		}}
 	}
 	return d
+}
+
+func nonEmpty(ns []string) []string {
+	out := []string{}
+	for _, n := range ns {
+		if n != "" {
+			out = append(out, n)
+		}
+	}
+	return out
 }
 
 // FailKeys lists every place a failure can be injected ("<object>.<field>").
